@@ -54,7 +54,7 @@ func c07Workflow() string {
 
 func genC07(t *rapid.T) streamCase {
 	wn := c07Workflow()
-	targets := []string{"passcount", "passcount", "uniformity", "uniformity", "two-items", "mixed", "random", "allpass"}
+	targets := []string{"passcount", "passcount", "uniformity", "uniformity", "two-items", "mixed", "half", "random", "allpass"}
 	if wn == "period" {
 		targets = append(targets, "lfsr")
 	}
